@@ -17,5 +17,5 @@ GenValuesT   == GenValues \cup {vLong(254), vLong(256), vLong(65535), vLong(6553
 Dotted == IF "AVOID_DOT" \in DOMAIN IOEnv THEN {} ELSE {nAdB}
 GenOptNamesT == GenOptNames \cup Dotted \cup {<< <<97, 255>> >>, << <<97, 256>> >>}
 GenSecNamesT == GenSecNames \cup Dotted \cup {<< <<97, 255>> >>, << <<97, 256>> >>}
-GenDecos     == {DTight, DSpaced, DCom, DBlank, DCrlf}
+GenDecos     == {DTight, DSpaced, DCom, DBlank, DCrlf, DGlue}
 =============================================================================
